@@ -24,6 +24,13 @@ impl IntConfig {
     pub fn get_config1(&self) -> IntConfig1 {
         self.int_config1
     }
+    // Record an acknowledged write of a temporarily changed interrupt enable register
+    pub fn set_config0(&mut self, int_config0: IntConfig0) {
+        self.int_config0 = int_config0;
+    }
+    pub fn set_config1(&mut self, int_config1: IntConfig1) {
+        self.int_config1 = int_config1;
+    }
 }
 
 /// Enable or disable interrupts[^except] and set interrupt latch mode
